@@ -94,7 +94,10 @@ type world struct {
 	Named  map[string][]byte `json:"named"`  // keyDir/<kid> contents (scrambled)
 	MaxAge int               `json:"maxage"` // TokenMaxAge
 	Env    string            `json:"env"`    // SEC_TOKEN_MAX_AGE ("" = unset)
-	Trust  string            `json:"trust"`
+	// EnvPaths: the key locations come from SEC_TOKEN_POOL_SIGNING_KEY_FILE /
+	// SEC_PASSWORD_DIRECTORY instead of the config fields
+	EnvPaths bool   `json:"envpaths,omitempty"`
+	Trust    string `json:"trust"`
 }
 
 // refKey: the signing key the server uses for a key id.
@@ -139,16 +142,37 @@ func (w *world) maxAge() int64 {
 	return 3600
 }
 
-// withEnv runs f with SEC_TOKEN_MAX_AGE set as the world says.
-func (w *world) withEnv(f func()) {
-	if w != nil && w.Env != "" {
-		os.Setenv("SEC_TOKEN_MAX_AGE", w.Env)
-		defer os.Unsetenv("SEC_TOKEN_MAX_AGE")
-	} else {
-		os.Unsetenv("SEC_TOKEN_MAX_AGE")
+// setEnv puts the process environment in the state the world describes and
+// returns the function that clears it again.
+func (w *world) setEnv() func() {
+	vars := []string{"SEC_TOKEN_MAX_AGE", "SEC_TOKEN_POOL_SIGNING_KEY_FILE", "SEC_PASSWORD_DIRECTORY"}
+	for _, v := range vars {
+		os.Unsetenv(v)
 	}
+	if w != nil {
+		if w.Env != "" {
+			os.Setenv("SEC_TOKEN_MAX_AGE", w.Env)
+		}
+		if w.EnvPaths {
+			if w.Pool != nil {
+				os.Setenv("SEC_TOKEN_POOL_SIGNING_KEY_FILE", "/pool/POOL")
+			}
+			os.Setenv("SEC_PASSWORD_DIRECTORY", "/keys")
+		}
+	}
+	return func() {
+		for _, v := range vars {
+			os.Unsetenv(v)
+		}
+	}
+}
+
+// withEnv runs f with the environment the world describes.
+func (w *world) withEnv(f func()) {
+	defer w.setEnv()()
 	f()
 }
+
 func (w *world) serverID() string {
 	if w.Trust == "" {
 		return "server@htcondor"
